@@ -1,4 +1,4 @@
-(* Finding C18/3 (D17, FIXED by repo commit 6b80c18): the same cycle with the electrum watcher: liquidBlockHeaderSubscriber.Update held its
+(* Finding C18/3 (D17, FIXED by repo commit c618ab0): the same cycle with the electrum watcher: liquidBlockHeaderSubscriber.Update held its
    mutex while calling the observers' callbacks (-> OnCsvPassed / OnTxConfirmed -> SendEvent), and AwaitCsvAction
    registered a new observer (Register takes the subscriber's mutex) under the swap's mutex.
      f0 Update        : Acq S; Call f1; Rel S           (S = electrum.liquidBlockHeaderSubscriber.mu, lock 1)
